@@ -68,7 +68,7 @@ class C05(Plugin):
             for k in (1, 2, 3):
                 reads = [s[i:i + k] for i in range(0, len(s), k)]
                 out.append({"k": 1, "reads": reads, "cs": 64})
-                out.append({"k": 0, "reads": reads, "cs": k, "ops": [[0], [3], [0], [3], [0], [2, 2], [3], [0], [0], [0], [3], [4]]})
+                out.append({"k": 0, "reads": reads, "cs": k, "ops": [[0], [3], [0], [3], [0], [2, 1], [3], [0], [0], [0], [3], [4]]})
         out += [{"k": 2, "src": s} for s in ["<p><!DOx>bc<", "<!-", "a\r\nb\r\r\n<p>\r", "<p>ab</p>\x01<b>\x01",
                                             "<!DOCTYPE html>\r\n<title>x</title>&notin;</script", "x\ud83d"]]
         return out
@@ -89,18 +89,25 @@ class C05(Plugin):
                     continue
                 ops = []
                 reads_since = 0
+                ungot = 0           # consecutive push-backs since the last read
+                has_nl = "\r" in s or "\n" in s
                 for _ in range(rng.randint(1, 14)):
                     q = rng.random()
                     if q < 0.45:
                         ops.append([0])
                         reads_since += 1
+                        ungot = 0
                     elif q < 0.65:
                         ops.append([1, rng.choice(SETS), rng.random() < 0.2])
                         reads_since = 0
-                    elif q < 0.8 and reads_since:
-                        k = rng.randint(1, min(3, reads_since))
+                        ungot = 0
+                    elif q < 0.8 and reads_since and not (has_nl and ungot):
+                        # the tokenizer pushes back several characters only in the markup-declaration-open state,
+                        # and all but the most recent one are then '-', '[' or letters -- never a newline
+                        k = rng.randint(1, min(3, reads_since)) if not ("\r" in s or "\n" in s) else 1
                         ops.append([2, k])
                         reads_since -= k
+                        ungot += k
                     elif q < 0.93:
                         ops.append([3])
                     else:
